@@ -34,7 +34,8 @@ DISABLE_PATTERNS = ['# DISABLE_DOCTEST', '# UNSTABLE', '# FAILING', '# SCRIPT', 
 DISABLE_PATTERNS_LC = ['# disable_doctest', '# Script', '# Unstable', '# failing']
 BASE_KINDS = ['pass', 'fail_out', 'fail_exc', 'fail_last', 'all_skipped', 'req_unmet', 'partly', 'expected_exc', 'comment_only',
               'disabled', 'pass', 'fail_out', 'inline_skipped_after_directive', 'req_after_directive', 'fail_warn', 'pass_warn',
-              'fail_directive_first']
+              'fail_directive_first', 'comment_then_skipped', 'skipped_then_comment', 'expected_exc_nomsg', 'expected_exc_qualified',
+              'expected_exc_syntax']
 OPTION_KINDS = ['needs_ellipsis', 'needs_nw', 'needs_iw']
 MERGEABLE = ('pass', 'fail_out', 'fail_exc', 'fail_last', 'expected_exc')
 
@@ -81,6 +82,20 @@ def block_lines(kind, tid, ind, pattern=None):
     elif kind == 'expected_exc':
         L += [t, "{}>>> raise ValueError('expected {}')".format(ind, tid), '{}Traceback (most recent call last):'.format(ind),
               '{}ValueError: expected {}'.format(ind, tid)]
+    elif kind == 'comment_then_skipped':
+        # a plain comment (a part of its own, met while nothing is skipped yet) next to code that is all skipped
+        L += ['{}>>> # just a remark'.format(ind), '{}>>> # xdoctest: +SKIP'.format(ind), t, "{}>>> print('never')".format(ind), '{}wrong'.format(ind)]
+    elif kind == 'skipped_then_comment':
+        L += [t + '  # xdoctest: +SKIP', "{}>>> print('never')  # xdoctest: +SKIP".format(ind), '{}wrong'.format(ind),
+              '{}>>> # xdoctest: -SKIP'.format(ind), '{}>>> # a trailing remark'.format(ind)]
+    elif kind == 'expected_exc_nomsg':
+        L += [t, '{}>>> raise NotImplementedError'.format(ind), '{}Traceback (most recent call last):'.format(ind),
+              '{}NotImplementedError'.format(ind)]
+    elif kind == 'expected_exc_qualified':
+        L += [t, '{}>>> import configparser'.format(ind), "{}>>> raise configparser.Error('vp {}')".format(ind, tid),
+              '{}Traceback (most recent call last):'.format(ind), '{}configparser.Error: vp {}'.format(ind, tid)]
+    elif kind == 'expected_exc_syntax':
+        L += [t, "{}>>> eval('1 +')".format(ind), '{}Traceback (most recent call last):'.format(ind), '{}SyntaxError: invalid syntax'.format(ind)]
     elif kind == 'comment_only':
         L += ['{}>>> # nothing to run here'.format(ind)]
     elif kind == 'disabled':
@@ -104,7 +119,7 @@ def outcome_of(kind, options=()):
     if '+SKIP' in opts and kind != 'comment_only':
         # every statement is skipped from the start; a block -SKIP is not generated
         return 'skipped', False
-    if kind in ('pass', 'partly', 'expected_exc', 'pass_warn'):
+    if kind in ('pass', 'partly', 'expected_exc', 'pass_warn', 'expected_exc_nomsg', 'expected_exc_qualified', 'expected_exc_syntax'):
         return 'passed', True
     if kind in ('fail_out', 'fail_exc', 'fail_last', 'fail_warn'):
         return 'failed', True
@@ -112,7 +127,8 @@ def outcome_of(kind, options=()):
         return 'failed', False
     if kind == 'disabled_lc':
         return 'failed', True            # when it runs (lower-case spelling: whether it is force-disabled is left open)
-    if kind in ('all_skipped', 'req_unmet', 'comment_only', 'inline_skipped_after_directive', 'req_after_directive'):
+    if kind in ('all_skipped', 'req_unmet', 'comment_only', 'inline_skipped_after_directive', 'req_after_directive', 'comment_then_skipped',
+                'skipped_then_comment'):
         return 'skipped', False
     if kind == 'disabled':
         return 'failed', True            # only when named explicitly
